@@ -316,6 +316,47 @@ def replay_exclusions(ctx, exe, hists):
 # object re-use histories (mode H, spec/nbgrid/NbHist.tla): one list object, several Generate calls
 # ----------------------------------------------------------------------------------------------
 
+def _change(prev, op):
+    """what differs between two consecutive Generate calls on the same object"""
+    if prev is None:
+        return "first"
+    d = []
+    if op["box"] != prev["box"]:
+        d.append("box")
+    if op["pos"] != prev["pos"]:
+        d.append("positions")
+    if op["rc2"] != prev["rc2"]:
+        d.append("cutoff-up" if op["rc2"] > prev["rc2"] else "cutoff-down")
+    if (op["s"], op["x"]) != (prev["s"], prev["x"]):
+        d.append("lists")
+    return "same" if not d else d[0] if len(d) == 1 else "multi"
+
+
+def reuse_vacuity(hists):
+    """the histories must contain, for pair and triple lists, two calls on the SAME box and positions where only the
+    cutoff grows, the cell count really changes and the larger cutoff finds something the smaller did not"""
+    need = {"p": False, "t": False}
+    kinds = collections.Counter()
+    for r in hists:
+        gens = [o for o in r["h"] if o["a"] == "gen"]
+        for a, b in zip(gens, gens[1:]):
+            c = _change(a, b)
+            kinds[(r["kind"], c)] += 1
+            if c == "cutoff-up" and a["N"] != b["N"]:
+                ida = set(tuple(w[:2]) if r["kind"] == "p" else tuple(w) for w in a["rows"])
+                idb = set(tuple(w[:2]) if r["kind"] == "p" else tuple(w) for w in b["rows"])
+                if idb - ida:
+                    need[r["kind"]] = True
+    for k in ("p", "t"):
+        for c in ("cutoff-up", "cutoff-down", "positions", "lists", "box"):
+            if not kinds[(k, c)]:
+                raise vlib.InfraError("vacuous re-use domain: no history of kind %s where only '%s' changes" % (k, c))
+        if not need[k]:
+            raise vlib.InfraError("vacuous re-use domain: no history of kind %s with the same box, a larger cutoff, "
+                                  "another cell count and new neighbours" % k)
+    return {"%s:%s" % k: v for k, v in sorted(kinds.items())}
+
+
 def replay_reuse(ctx, exe, hists):
     items = []
     for i, r in enumerate(hists):
@@ -350,16 +391,19 @@ def replay_reuse(ctx, exe, hists):
             out = results[(i, algo)]
             pos = r["_nsetup"] + 1             # setup, obj new
             ngen = 0
+            prev = None
             for op in r["h"]:
                 if op["a"] == "clean":
                     pos += 1
                     continue
+                chg = _change(prev, op)
+                prev = op
                 pos += 1 + n + 1               # setbox, setpos*, obj cut
                 o = out[pos]
                 pos += 1
                 ngen += 1
-                when = ("first" if ngen == 1 else "later") + (":after-cleanup" if op["fresh"] and ngen > 1 else
-                                                              "" if op["fresh"] else ":accumulating")
+                when = ("first" if ngen == 1 else "later:" + chg) + (":after-cleanup" if op["fresh"] and ngen > 1 else
+                                                                      "" if op["fresh"] else ":accumulating")
                 base = "Reuse:%s:%s:%s" % (cls, variant({"k": r["kind"], "s": op["s"]}), when)
                 if not o or o[0].startswith("exc") or len(o) < 2:
                     ctx.violation(base + ":exception", "Generate failed: %s in history %s" % (o, hist), r)
@@ -739,6 +783,13 @@ def run(ctx):
     vlib.tlc_must_hold(res, "NbHist: every Generate of a re-used object = Spec of its own configuration")
     ctx.add_tlc(mod, res)
     hists = res.records
+    res.out = ""
+    # two calls (with / without Cleanup between) where exactly one thing changes: cutoff, positions, lists, box
+    res = vlib.tlc("nbgrid", "MCNbHistOne", cfg="MCNbHistOne.cfg", timeout=3000)
+    vlib.tlc_must_hold(res, "NbHist (one thing changes between two Generate calls)")
+    ctx.add_tlc("MCNbHistOne", res)
+    ctx.extra["reuse_changes"] = reuse_vacuity(res.records)
+    hists += res.records
     res.out = ""
     replay_reuse(ctx, exe, hists)
     ctx.extra["reuse_histories"] = len(hists)
